@@ -255,6 +255,22 @@ func runCheck(id, tier, replay string) int {
 	for _, v := range viols {
 		replayCases = append(replayCases, ReplayCase{Harness: v.h.Func, Pkg: v.h.Pkg, Label: v.ob.Label, Kind: v.ob.Kind, Vector: v.ob.Model, Expect: "fail:" + v.ob.Label})
 	}
+	knownLabel := func(harness, label string) bool {
+		for _, k := range known.Findings {
+			if k.Property == id && k.Harness == harness && k.Label == label {
+				return true
+			}
+		}
+		return false
+	}
+	onlyKnown := func(harness string, labels []string) bool {
+		for _, l := range labels {
+			if !knownLabel(harness, l) {
+				return false
+			}
+		}
+		return true
+	}
 	concreteOK := map[int]bool{}
 	for i, rc := range replayCases {
 		fn := ld.lookup(rc.Pkg, rc.Harness)
@@ -272,7 +288,7 @@ func runCheck(id, tier, replay string) int {
 			}
 		}
 		if rc.Expect == "pass" {
-			concreteOK[i] = len(failed) == 0 && (p.endKind == "ok")
+			concreteOK[i] = onlyKnown(rc.Harness, keys(failed)) && (p.endKind == "ok")
 			if !concreteOK[i] {
 				replayNotes = append(replayNotes, fmt.Sprintf("cover witness %s/%s: concrete interpreter run ended %s %s failed=%v", rc.Harness, rc.Label, p.endKind, p.endMsg, keys(failed)))
 			}
@@ -297,7 +313,7 @@ func runCheck(id, tier, replay string) int {
 			continue
 		}
 		if rc.Expect == "pass" {
-			if len(nr.Failures) == 0 && nr.Panic == "" && !nr.Timeout && concreteOK[i] {
+			if onlyKnown(rc.Harness, nr.Failures) && nr.Panic == "" && !nr.Timeout && concreteOK[i] {
 				validated++
 			} else {
 				replayNotes = append(replayNotes, fmt.Sprintf("DISAGREEMENT on cover witness %s/%s: native failures=%v panic=%q timeout=%v", rc.Harness, rc.Label, nr.Failures, nr.Panic, nr.Timeout))
